@@ -657,6 +657,208 @@ func opSeq(fd *ast.FuncDecl) []string {
 	return out
 }
 
+// ---- C17: access table of the client struct's fields with the lexically held locks ----
+
+var lockOps = map[string][2]string{ // call text -> (lock name, +mode / -)
+	"c.Lock": {"mu", "W"}, "c.Unlock": {"mu", "-"}, "c.RLock": {"mu", "R"}, "c.RUnlock": {"mu", "-"},
+	"c.recvsMu.Lock": {"recvsMu", "W"}, "c.recvsMu.Unlock": {"recvsMu", "-"}, "c.recvsMu.RLock": {"recvsMu", "R"}, "c.recvsMu.RUnlock": {"recvsMu", "-"},
+	"c.stateMu.Lock": {"stateMu", "W"}, "c.stateMu.Unlock": {"stateMu", "-"},
+	"c.mu.Lock": {"cbMu", "W"}, "c.mu.Unlock": {"cbMu", "-"},
+}
+
+type access struct{ field, fn, kind, locks string }
+
+func heldText(h map[string]string) string {
+	ks := []string{}
+	for k, v := range h {
+		ks = append(ks, k+":"+v)
+	}
+	sort.Strings(ks)
+	return strings.Join(ks, ",")
+}
+
+// accessesOf walks a method of receiver `c` in source order with a lexical lock set. A `defer X.Unlock()` keeps the lock to the end;
+// a `go func` body starts with an empty lock set; other closures (Once.Do, deferred funcs) inherit the current one.
+func accessesOf(fd *ast.FuncDecl, fields map[string]bool, atomicFields map[string]bool) []access {
+	out := []access{}
+	if fd == nil || fd.Body == nil {
+		return out
+	}
+	fn := fd.Name.Name
+	var walkStmts func(list []ast.Stmt, held map[string]string)
+	var walkNode func(n ast.Node, held map[string]string, write bool)
+	copyHeld := func(h map[string]string) map[string]string {
+		c := map[string]string{}
+		for k, v := range h {
+			c[k] = v
+		}
+		return c
+	}
+	record := func(sel *ast.SelectorExpr, held map[string]string, write bool) {
+		if id, ok := sel.X.(*ast.Ident); ok && id.Name == "c" && fields[sel.Sel.Name] {
+			kind := "read"
+			if write {
+				kind = "write"
+			}
+			out = append(out, access{sel.Sel.Name, fn, kind, heldText(held)})
+		}
+	}
+	walkNode = func(n ast.Node, held map[string]string, write bool) {
+		if n == nil {
+			return
+		}
+		switch v := n.(type) {
+		case *ast.FuncLit:
+			walkStmts(v.Body.List, copyHeld(held))
+		case *ast.SelectorExpr:
+			record(v, held, write)
+			walkNode(v.X, held, false)
+		case *ast.CallExpr:
+			f := exprText(v.Fun)
+			if strings.HasPrefix(f, "atomic.") { // atomic access: &c.field is not a plain access
+				for _, a := range v.Args {
+					if u, ok := a.(*ast.UnaryExpr); ok && u.Op == token.AND {
+						if se, ok := u.X.(*ast.SelectorExpr); ok && atomicFields[se.Sel.Name] {
+							out = append(out, access{se.Sel.Name, fn, "atomic", heldText(held)})
+							continue
+						}
+					}
+					walkNode(a, held, false)
+				}
+				return
+			}
+			walkNode(v.Fun, held, false)
+			for _, a := range v.Args {
+				walkNode(a, held, false)
+			}
+		case *ast.UnaryExpr:
+			walkNode(v.X, held, write)
+		case *ast.BinaryExpr:
+			walkNode(v.X, held, false)
+			walkNode(v.Y, held, false)
+		case *ast.IndexExpr:
+			walkNode(v.X, held, write) // m[k] = v writes the map field
+			walkNode(v.Index, held, false)
+		case *ast.ParenExpr:
+			walkNode(v.X, held, write)
+		case *ast.StarExpr:
+			walkNode(v.X, held, write)
+		case *ast.CompositeLit:
+			for _, e := range v.Elts {
+				walkNode(e, held, false)
+			}
+		case *ast.KeyValueExpr:
+			walkNode(v.Value, held, false)
+		case *ast.TypeAssertExpr:
+			walkNode(v.X, held, false)
+		case *ast.SliceExpr:
+			walkNode(v.X, held, false)
+		}
+	}
+	walkStmts = func(list []ast.Stmt, held map[string]string) {
+		for _, st := range list {
+			switch v := st.(type) {
+			case *ast.ExprStmt:
+				if ce, ok := v.X.(*ast.CallExpr); ok {
+					if lo, ok := lockOps[exprText(ce.Fun)]; ok {
+						if lo[1] == "-" {
+							delete(held, lo[0])
+						} else {
+							held[lo[0]] = lo[1]
+						}
+						continue
+					}
+				}
+				walkNode(v.X, held, false)
+			case *ast.DeferStmt:
+				if _, ok := lockOps[exprText(v.Call.Fun)]; ok {
+					continue // deferred unlock: held to the end
+				}
+				walkNode(v.Call, held, false)
+			case *ast.GoStmt:
+				if fl, ok := v.Call.Fun.(*ast.FuncLit); ok {
+					walkStmts(fl.Body.List, map[string]string{})
+				} else {
+					walkNode(v.Call, map[string]string{}, false)
+				}
+			case *ast.AssignStmt:
+				for _, r := range v.Rhs {
+					walkNode(r, held, false)
+				}
+				for _, l := range v.Lhs {
+					walkNode(l, held, true)
+				}
+			case *ast.IncDecStmt:
+				walkNode(v.X, held, true)
+			case *ast.IfStmt:
+				if v.Init != nil {
+					walkStmts([]ast.Stmt{v.Init}, held)
+				}
+				walkNode(v.Cond, held, false)
+				h2 := copyHeld(held)
+				walkStmts(v.Body.List, h2)
+				if v.Else != nil {
+					switch e := v.Else.(type) {
+					case *ast.BlockStmt:
+						walkStmts(e.List, copyHeld(held))
+					case *ast.IfStmt:
+						walkStmts([]ast.Stmt{e}, copyHeld(held))
+					}
+				}
+			case *ast.ForStmt:
+				if v.Cond != nil {
+					walkNode(v.Cond, held, false)
+				}
+				walkStmts(v.Body.List, copyHeld(held))
+			case *ast.RangeStmt:
+				walkNode(v.X, held, false)
+				walkStmts(v.Body.List, copyHeld(held))
+			case *ast.BlockStmt:
+				walkStmts(v.List, held)
+			case *ast.SelectStmt:
+				for _, c := range v.Body.List {
+					cc := c.(*ast.CommClause)
+					h2 := copyHeld(held)
+					if cc.Comm != nil {
+						walkStmts([]ast.Stmt{cc.Comm}, h2)
+					}
+					walkStmts(cc.Body, h2)
+				}
+			case *ast.SwitchStmt:
+				if v.Tag != nil {
+					walkNode(v.Tag, held, false)
+				}
+				for _, c := range v.Body.List {
+					cc := c.(*ast.CaseClause)
+					for _, e := range cc.List {
+						walkNode(e, held, false)
+					}
+					walkStmts(cc.Body, copyHeld(held))
+				}
+			case *ast.ReturnStmt:
+				for _, r := range v.Results {
+					walkNode(r, held, false)
+				}
+			case *ast.SendStmt:
+				walkNode(v.Chan, held, false)
+				walkNode(v.Value, held, false)
+			case *ast.DeclStmt:
+				if gd, ok := v.Decl.(*ast.GenDecl); ok {
+					for _, sp := range gd.Specs {
+						if vs, ok := sp.(*ast.ValueSpec); ok {
+							for _, e := range vs.Values {
+								walkNode(e, held, false)
+							}
+						}
+					}
+				}
+			}
+		}
+	}
+	walkStmts(fd.Body.List, map[string]string{})
+	return out
+}
+
 func q(xs []string) string {
 	o := []string{}
 	for _, x := range xs {
@@ -777,6 +979,44 @@ func main() {
 		{"tcpConn", "write"}, {"tcpConn", "Close"}, {"tcpConn", "OnPacket"}, {"tcpConn", "addPacket"}, {"tcpConn", "Write"},
 		{"wsConn", "write"}, {"wsConn", "Close"}, {"wsConn", "OnPacket"}, {"wsConn", "addPacket"}, {"wsConn", "Write"}} {
 		fmt.Fprintf(&w, "def seq_%s_%s : List String := %s\n", fr[0], fr[1], q(opSeq(findFunc(pkgs["client"], fr[0], fr[1]))))
+	}
+	// C17: every syntactic access to a field of the client struct, with the lexically held locks
+	{
+		cfields := map[string]bool{}
+		for _, f := range structFields(pkgs["client"], "client") {
+			cfields[f] = true
+		}
+		atomicF := map[string]bool{"recovering": true}
+		acc := []access{}
+		for _, f := range pkgs["client"].files {
+			for _, d := range f.Decls {
+				if fd, ok := d.(*ast.FuncDecl); ok && (recvName(fd) == "client" || fd.Name.Name == "New") {
+					acc = append(acc, accessesOf(fd, cfields, atomicF)...)
+				}
+			}
+		}
+		// option setters assign through the parameter `c` as well
+		for _, fn := range []string{"WithContext", "WithLogger", "WithConnectMetadata"} {
+			acc = append(acc, accessesOf(findFunc(pkgs["client"], "", fn), cfields, atomicF)...)
+		}
+		seen := map[string]bool{}
+		rows := []string{}
+		for _, a := range acc {
+			k := a.field + "|" + a.fn + "|" + a.kind + "|" + a.locks
+			if seen[k] {
+				continue
+			}
+			seen[k] = true
+			ls := []string{}
+			if a.locks != "" {
+				ls = strings.Split(a.locks, ",")
+			}
+			rows = append(rows, fmt.Sprintf("(%q, %q, %q, %s)", a.field, a.fn, a.kind, q(ls)))
+		}
+		sort.Strings(rows)
+		fl := structFields(pkgs["client"], "client")
+		fmt.Fprintf(&w, "def clientFields : List String := %s\n", q(fl))
+		fmt.Fprintf(&w, "def clientAccess : List (String × String × String × List String) := [\n  %s]\n", strings.Join(rows, ",\n  "))
 	}
 	fmt.Fprintln(&w, "end OAP.Gen")
 	out := filepath.Join(outDir, "Facts.lean")
